@@ -195,6 +195,32 @@ func Check(id, tier string, seed int) int {
 		}
 		wg2.Wait()
 	}
+	// last chance, one obligation at a time with the whole machine: see vc.(*Unit).LastChance
+	{
+		n := 0
+		for _, r := range results {
+			if r.err != nil || r.u == nil {
+				continue
+			}
+			for _, ob := range r.u.Obligations() {
+				if ob.Cover || ob.OK() || n >= 8 {
+					continue
+				}
+				n++
+				if r.u.LastChance(context.Background(), ob, 3*timeout, seed) {
+					mu.Lock()
+					st := stats["last chance (sequential, 3 solvers)"]
+					if st == nil {
+						st = &vc.SolverStat{}
+						stats["last chance (sequential, 3 solvers)"] = st
+					}
+					st.Discharged++
+					st.Seconds += ob.Seconds
+					mu.Unlock()
+				}
+			}
+		}
+	}
 	known := LoadKnown(filepath.Join(verif, "known_findings.txt"))
 	knownByName := map[string]Known{}
 	for _, k := range known {
